@@ -13,7 +13,8 @@ LEVEL = 'exploration'
 RULE = ('complete enumeration of: 441 partwise element names (class exists, unique, bound to the declared type for every '
         'declaration of that name), every element class (container language == reference DFA by product construction; '
         'attribute table == reference table in names, types and required flags; simple-content base), 45 attribute '
-        'groups, 27 model groups, every simple type (class exists, base, enumeration literals, pattern, union members), '
+        'groups, 27 model groups, every simple type (class exists, base, enumeration literals, pattern, union members; plus the enumeration each class '
+        'actually enforces after first use in sorted and in reversed order), '
         'and the schema copies loaded by the library vs /verif/ref (structural, annotations and whitespace ignored). '
         'An evaluation is one comparison; non-trivial = comparison of a container language, an attribute table with at '
         'least one attribute, a typed binding or a facet list')
@@ -21,7 +22,8 @@ ASSUMPTIONS = ['reference model built from /verif/ref (pinned SHA-256); its own 
                'whether the matcher dynamically accepts exactly the declared language is C01/C02/C12, not C03']
 TIMEOUT = {'quick': 600, 'thorough': 900}
 
-PARTS = ['names', 'languages', 'attributes', 'attrgroups', 'groups', 'simpletypes', 'schema']
+PARTS = ['names', 'languages', 'attributes', 'attrgroups', 'groups', 'simpletypes', 'schema', 'enum-effective-sorted',
+         'enum-effective-reversed']
 
 
 def plan(tier, seed):
@@ -381,6 +383,28 @@ def run_shard(shard, tier, seed):
                     viol.append(_v(part, tn, 'union-inline-literals-differ', {'want': want_forced, 'got': got_forced}))
             if len(samples) < 2:
                 samples.append({'simple_type': tn, 'class': cname, 'enumeration': want_enum[:4]})
+    elif part.startswith('enum-effective'):
+        # the enumeration a type class actually enforces (after the classes were first used in a given order) must be the
+        # schema's: every literal of every overlapping enumeration is offered
+        import musicxml.xsd.xsdsimpletype as xs_
+        names = sorted(t for t in ref.stypes if ref.enumeration(t) and ref.stypes[t].find(ref.XS + 'restriction') is not None)
+        if part.endswith('reversed'):
+            names.reverse()
+        for tn in names:
+            cls = getattr(xs_, simple_class_name(tn), None)
+            if cls is None:
+                continue
+            want = set(ref.enumeration(tn))
+            probes = sorted(want) + ref.near_miss_literals(tn, 40)
+            for lit in probes:
+                evals += 1
+                ok = lib.call(cls, lit)[0] == 'ok'
+                if ok != (lit in want):
+                    viol.append(_v(part.rsplit('-', 1)[0], tn, 'effective-enumeration-differs',
+                                   {'literal': lit, 'accepted': ok, 'in_schema': lit in want, 'order': part.rsplit('-', 1)[1]}))
+                    break
+            nontriv += 1
+        samples.append({'order': part, 'enumerated_types': len(names)})
     elif part == 'schema':
         from musicxml.generate_classes.utils import musicxml_xsd_et_root, xml_xsd_et_root
         for label, a, b in (('musicxml_4_0.xsd', ref.root, musicxml_xsd_et_root), ('xml.xsd', ref.xml_root, xml_xsd_et_root)):
